@@ -20,14 +20,15 @@ TraceInit == Init /\ l = 1 /\ TraceRegInit
 Ev == Rec[l]
 
 ResetAll ==
-    /\ mem' = [x \in Loc |-> << [val |-> 0, view |-> View0] >>]
+    /\ mem' = [x \in Loc |-> << [val |-> IF x = HC THEN 1 ELSE 0, view |-> View0] >>]
     /\ tv' = [t \in Thr |-> View0]
     /\ acqv' = [t \in Thr |-> View0]
     /\ relv' = [t \in Thr |-> View0]
     /\ sc' = View0
     /\ pc' = [t \in Thr |-> "idle"]
-    /\ pw' = 0 /\ pr' = 0 /\ cr' = 0 /\ cw' = 0 /\ cval' = 0
-    /\ nextv' = 1 /\ npop' = 0
+    /\ pw' = 0 /\ pr' = 0
+    /\ cr' = [c \in Cons |-> 0] /\ cw' = [c \in Cons |-> 0] /\ cval' = [c \in Cons |-> 0]
+    /\ nextv' = 1 /\ npop' = [c \in Cons |-> 0] /\ holds' = [c \in Cons |-> FALSE]
     /\ pushres' = <<>> /\ popped' = <<>> /\ nones' = 0 /\ evicted' = <<>>
     /\ race' = FALSE
 
@@ -43,17 +44,17 @@ AtomP(e) ==
        /\ e.ok = (pc'[0] = "p_rdev") /\ e.rd = LatestVal(RP)
 
 AtomC(e) ==
-    \/ /\ IsAtom(e, 1, "load", Ord.c_rp, Ord.c_rp) /\ CLoadRp /\ cr' = e.rd
-    \/ /\ IsAtom(e, 1, "load", Ord.c_wp, Ord.c_wp) /\ CLoadWp /\ cw' = e.rd
-    \/ /\ IsAtom(e, 1, "store", Ord.c_st, Ord.c_st) /\ CStoreRp /\ e.wr = cr + 1
-    \/ /\ IsAtom(e, 1, "cas", Ord.c_cas_s, Ord.c_cas_f) /\ CCasRp
-       /\ e.expected = cr /\ e.operand = cr + 1
+    \/ /\ IsAtom(e, 1, "load", Ord.c_rp, Ord.c_rp) /\ CLoadRp(1) /\ cr'[1] = e.rd
+    \/ /\ IsAtom(e, 1, "load", Ord.c_wp, Ord.c_wp) /\ CLoadWp(1) /\ cw'[1] = e.rd
+    \/ /\ IsAtom(e, 1, "store", Ord.c_st, Ord.c_st) /\ CStoreRp(1) /\ e.wr = cr[1] + 1
+    \/ /\ IsAtom(e, 1, "cas", Ord.c_cas_s, Ord.c_cas_f) /\ CCasRp(1)
+       /\ e.expected = cr[1] /\ e.operand = cr[1] + 1
        /\ e.ok = (pc'[1] = "idle") /\ e.rd = LatestVal(RP)
 
 \* plain slot accesses are not recorded: they are silent steps (bounded: the pc changes)
 Silent ==
     /\ l <= NRec
-    /\ (PWriteSlot \/ PReadEvicted \/ CReadSlot)
+    /\ (PWriteSlot \/ PReadEvicted \/ CReadSlot(1))
     /\ UNCHANGED l
 
 Consume ==
@@ -62,7 +63,7 @@ Consume ==
     /\ LET e == Ev IN
        CASE e.k = "reset" -> ResetAll
          [] e.k = "call" /\ e.a = "push" -> PStart /\ e.v = nextv
-         [] e.k = "call" /\ e.a = "pop" -> CStart
+         [] e.k = "call" /\ e.a = "pop" -> CStart(1)
          [] e.k = "ret" /\ e.a = "push" ->
                /\ pc[0] = "idle" /\ Len(pushres) = nextv - 1 /\ nextv > 1
                /\ pushres[nextv - 1].r = e.r /\ pushres[nextv - 1].v = e.v
@@ -70,10 +71,10 @@ Consume ==
          [] e.k = "ret" /\ e.a = "pop" ->
                /\ pc[1] = "idle"
                /\ IF e.r = "none" THEN TRUE ELSE Len(popped) > 0 /\ popped[Len(popped)] = e.v
-               /\ Len(popped) + nones = npop
+               /\ Len(popped) + nones = npop[1]
                /\ UNCHANGED vars
          [] e.k = "atom" -> AtomP(e) \/ AtomC(e)
-         [] e.k \in {"end", "aux"} -> UNCHANGED vars
+         [] e.k \in {"end", "aux", "tok"} -> UNCHANGED vars
          [] OTHER -> FALSE
 
 TraceNext == Consume \/ Silent
